@@ -41,6 +41,54 @@ pub enum ReadOutcome {
     Panic(String),
 }
 
+/// runs `f` (which builds a stream and calls `read_model`) in its own thread under a CPU-time budget
+pub fn budgeted(f: impl FnOnce() -> ReadOutcome + Send + 'static) -> ReadOutcome {
+    #[cfg(miri)]
+    {
+        return f();
+    }
+    #[cfg(not(miri))]
+    {
+        use crate::cpuwatch::{run, Budgeted};
+        match run(30.0, f) {
+            Budgeted::Done(o) => o,
+            Budgeted::Runaway(c) => {
+                crate::report::request_stop();
+                ReadOutcome::Panic(format!("runaway reader: no result after {:.0} s of CPU time on an image of a few kilobytes @ harness cpu budget", c))
+            }
+            Budgeted::Unknown(e) => ReadOutcome::Err(format!("harness: {}", e)),
+        }
+    }
+}
+
+/// `read_model` on an owned copy of the bytes, in its own thread under a CPU-time budget: a reader that spins on a
+/// corrupted count (without reading, without allocating) ends as `Panic("runaway …")` instead of hanging the shard
+pub fn read_model_budgeted(bytes: Vec<u8>, window: Option<usize>) -> ReadOutcome {
+    #[cfg(miri)]
+    {
+        return match window {
+            Some(w) => read_model(std::io::BufReader::with_capacity(w, &bytes[..])),
+            None => read_model(&bytes[..]),
+        };
+    }
+    #[cfg(not(miri))]
+    {
+        use crate::cpuwatch::{run, Budgeted};
+        let r = run(30.0, move || match window {
+            Some(w) => read_model(std::io::BufReader::with_capacity(w, &bytes[..])),
+            None => read_model(&bytes[..]),
+        });
+        match r {
+            Budgeted::Done(o) => o,
+            Budgeted::Runaway(c) => {
+                crate::report::request_stop();
+                ReadOutcome::Panic(format!("runaway reader: no result after {:.0} s of CPU time on an image of a few kilobytes @ harness cpu budget", c))
+            }
+            Budgeted::Unknown(e) => ReadOutcome::Err(format!("harness: {}", e)),
+        }
+    }
+}
+
 /// Stops a reader that keeps asking for bytes long after the stream has ended (a loop over a corrupted count).
 struct GuardedReader<R: Read> {
     inner: R,
